@@ -547,8 +547,8 @@ func askCase(r *rand.Rand, name string, nodes []node, addrs []p2p.Addr, ctx cont
 			return 0, nil
 		}
 		switch req[0] % 5 {
-		case 0:
-			return -1, nil
+		case 0: // the handler signals failure; any negative value must do
+			return []int{-1, -2, -255, -256, -512, -65536, -1 << 31}[int(req[1])%7], nil
 		case 1:
 			return 0, nil
 		}
@@ -563,6 +563,9 @@ func askCase(r *rand.Rand, name string, nodes []node, addrs []p2p.Addr, ctx cont
 				for {
 					err := nodes[i].ask.ServeAsk(sctx, func(_ context.Context, resp []byte, m p2p.Message[p2p.Addr]) int {
 						n, out := respFor(m.Payload)
+						if n < 0 {
+							return n
+						}
 						if n > len(resp) {
 							return -1
 						}
